@@ -263,10 +263,19 @@ def judge(ctx: Ctx, events: list, model0: RefStorage, bind0: X.Binding, kind: st
             ev2.append({**e, "out": None} if overl else e)
         torn = linz.check(ev2, model0, bind0, relaxed=True)
     thin_air = read_shows_unwritten(events, model0, bind0)
+    # F7's own symptom inside this history: two finishing writes of ONE trial were both answered True.  From then on a client
+    # cache that holds the first finish (finished trials are served from the cache) and an uncached read disagree for ever,
+    # which no single-copy model explains - recorded as a fact so that F7 can be matched by its mechanism
+    fin: dict = {}
+    for e in events:
+        if e["op"][0] == "set_trial_state_values" and e["op"][2] in ("COMPLETE", "PRUNED", "FAIL") and e["out"] == ("ok", True):
+            fin[e["op"][1]] = fin.get(e["op"][1], 0) + 1
+    double_finish = any(v >= 2 for v in fin.values())
     ctx.violation({"kind": "not_linearizable", "backend_family": fam, "via_grpc": kind.startswith("grpc:"),
                    "linearizable_if_sqlite_state_check_reads_stale": rel["verdict"] == "ok",
                    "linearizable_if_sqlite_reads_overlapping_writes_are_torn": torn["verdict"] == "ok",
-                   "read_shows_state_or_template_fields_nobody_wrote": thin_air is not None, **facts},
+                   "read_shows_state_or_template_fields_nobody_wrote": thin_air is not None,
+                   "two_finishes_of_one_trial_both_answered_true": double_finish, "client_cache_in_path": kind.startswith("grpc:") or "cached" in kind, **facts},
                   f"no linearization of the recorded history is consistent with the storage contract ({facts})" + (f"; {thin_air}" if thin_air else ""), case,
                   {"history": linz.describe(events), "longest_consistent_prefix": res.get("longest_consistent_prefix")})
 
